@@ -251,7 +251,13 @@ class HTTP1Connection(httputil.HTTPConnection):
                         )
                     # TODO: client delegates will get headers_received twice
                     # in the case of a 100-continue.  Document or change?
-                    await self._read_message(delegate)
+                    #
+                    # The final response is a message of its own: its result
+                    # is the result of this read (the interim response has no
+                    # body to read and nothing to finish).
+                    ret = await self._read_message(delegate)
+                    need_delegate_close = False
+                    return ret
             else:
                 if headers.get("Expect") == "100-continue" and not self._write_finished:
                     self.stream.write(b"HTTP/1.1 100 (Continue)\r\n\r\n")
